@@ -349,8 +349,11 @@ def unit_mean_sets(ctx):
     subsets = [p for r in range(1, ndim + 1) for p in itertools.permutations(range(ndim), r)]
     sub = ctx.choose("directions", subsets)
     form = ctx.choose("form", ["list", "tuple"])
+    # storage type of the values: an integer-typed field has non-integer means (the REAL part is what is judged below;
+    # complex values are covered by unit reuse)
+    dt = ctx.choose("dtype", ["float", "int"]) if (nvdim == 1 and ndim <= 3) or ctx.tier == "thorough" else "float"
     vals = C.tracer(n, nvdim, ctx.seed)
-    f = df.Field(mesh, nvdim=nvdim, value=vals)
+    f = df.Field(mesh, nvdim=nvdim, value=vals if dt == "float" else vals.astype(int), dtype=float if dt == "float" else int)
     inst = ctx.key(drop=("geom", "names"))
     cell = _exact_cell(mesh)
     names = [mesh.region.dims[k] for k in sub]
